@@ -218,7 +218,9 @@ func check(sub string) func(t h.TB, c Case) {
 					_, isDecl := n.(dst.Decl)
 					_, isLabeled := n.(*dst.LabeledStmt)
 					line = (isStmt || isDecl) && !isLabeled
-					_ = pp
+					if cc, ok := pp.(*dst.CommClause); ok && cc.Comm == n {
+						line = false // "case <-x:" - the communication is followed by the colon, not by a line end
+					}
 				case *dst.GenDecl:
 					line = pp.Lparen
 				}
@@ -306,9 +308,21 @@ func check(sub string) func(t h.TB, c Case) {
 			t.Fatalf("harness: %d dst nodes, %d ast nodes in the output", len(nodes), len(anodes))
 		}
 		where := map[string][2]int{}
+		// go/printer holds back a comment group that contains a line break while the token printed
+		// last implies a semicolon ("x /* a\n b */ y" would change meaning), and with it every
+		// member of the group: a marker that follows a multi-line comment of the source in one
+		// group moves with it
+		heldBack := map[string]bool{}
 		for _, g := range pf.Comments {
+			multi := false
 			for _, cm := range g.List {
 				where[cm.Text] = [2]int{tf.Offset(cm.Pos()), tf.Offset(cm.End())}
+				if multi {
+					heldBack[cm.Text] = true
+				}
+				if strings.HasPrefix(cm.Text, "/*") && strings.Contains(cm.Text, "\n") {
+					multi = true
+				}
 			}
 		}
 		lastOff := map[int]int{}
@@ -322,6 +336,10 @@ func check(sub string) func(t h.TB, c Case) {
 			w, ok := where[p.text]
 			if !ok {
 				h.Fail(t, sub, c, "decoration %s not found as a comment in the output", p.text)
+			}
+			if heldBack[p.text] {
+				h.Label("skipped-placement:marker-grouped-behind-a-multi-line-comment")
+				continue
 			}
 			desc := fmt.Sprintf("%s on %s.%s", p.text, ty, p.point)
 			nStart, nEnd := tf.Offset(an.Pos()), tf.Offset(an.End())
